@@ -180,3 +180,8 @@ func post_unitType_conn(res0 uint8) bool { return res0 == typeConn && typeConn !
 
 // @ verify (Ban).Key post=post_Ban_Key props=C04,C14
 func post_Ban_Key(e Ban, res0 string) bool { return res0 == string(e) }
+
+// DecodeState and State.Encode are NOT under contract: both build a map[uint8]crdt.Volatile (a map whose values are
+// structs), which is outside the verifier's map model (scalar, string, pointer and interface values only). Two
+// seeded changes that live exactly there (a decoded set of one type dropped; an Encode cache that goes stale when
+// Merge trims a payload in place) are therefore MISSED - recorded as such under /verif/seeded/C04c and C13c.
